@@ -533,12 +533,16 @@ func (z *BigInt) DivMod(x, y, m *BigInt) (*BigInt, *BigInt) {
 	// NOTE: innerOrAlias for the y param because (big.Int).DivMod needs to
 	// detect when y is aliased to the receiver.
 	yi := y.innerOrAlias(&tmp4, z, zi)
-	// NOTE: and for the m param because two results stored in one object, or
-	// a result stored in y, must be one object to math/big as well: what it
-	// leaves there depends on the order of its assignments.
+	// NOTE: and for the m param because two results stored in one object must
+	// be one object to math/big as well: what it leaves there depends on the
+	// order of its assignments.
 	mi := m.innerOrAlias(&tmp2, z, zi)
-	if m == y {
-		mi = yi
+	if m == y && m != z {
+		// The modulus replaces the divisor. math/big reads y again after it has
+		// stored the remainder in m, and keeps a copy of y only when y is its
+		// receiver: divide by a private copy.
+		var tmp5 big.Int
+		yi = tmp5.Set(yi)
 	}
 	zi.DivMod(x.inner(&tmp3), yi, mi)
 	z.updateInner(zi)
